@@ -33,10 +33,12 @@ func runC17(c *core.Ctx) {
 	resume := c.P.Fn("pwr/patcher", "savingPatcher.Resume")
 	skip := c.P.Fn("pwr/patcher", "savingPatcher.skipFile")
 	process := c.P.Fn("pwr/patcher", "savingPatcher.processFile")
-	if resume == nil || skip == nil || process == nil {
-		c.Missing("R17", "pwr/patcher.(*savingPatcher).Resume/skipFile/processFile", "not found")
+	if resume == nil || skip == nil {
+		c.Missing("R17", "pwr/patcher.(*savingPatcher).Resume/skipFile", "not found")
 		return
 	}
+	// processFile is the usual carrier of the effects, but what matters are the calls in Resume from which a bowl
+	// write or a pool read is reachable, whatever they are called
 	isEffect := func(in ssa.Instruction) bool {
 		cl, ok := in.(ssa.CallInstruction)
 		if !ok || !cl.Common().IsInvoke() {
@@ -93,7 +95,8 @@ func runC17(c *core.Ctx) {
 	c.Check(!reaches(skip), "R17.1", core.FnName(skip), "call tree contains no bowl write / pool read", skip.Pos(),
 		"no Bowl.GetWriter/Transpose or Pool read is reachable from skipFile", "a bowl write/transpose or an old-build pool read is reachable from skipFile: a file outside the whitelist is touched or read")
 	nEff := 0
-	var processCall, skipCall ssa.Instruction
+	var skipCall ssa.Instruction
+	var processCalls []ssa.Instruction
 	core.Instrs(resume, func(in ssa.Instruction) {
 		cl, ok := in.(ssa.CallInstruction)
 		if !ok {
@@ -102,10 +105,9 @@ func runC17(c *core.Ctx) {
 		if _, isDefer := in.(*ssa.Defer); isDefer {
 			return
 		}
-		if sc := cl.Common().StaticCallee(); sc == process {
-			processCall = in
-		} else if sc == skip {
+		if sc := cl.Common().StaticCallee(); sc == skip {
 			skipCall = in
+			return
 		}
 		direct := isEffect(in)
 		via := false
@@ -114,15 +116,19 @@ func runC17(c *core.Ctx) {
 		}
 		if direct || via {
 			nEff++
-			c.Check(cl.Common().StaticCallee() == process, "R17.1", core.FnName(resume), "effect-reaching call "+core.CalleeName(cl), core.InstrPos(in),
-				"bowl/pool effects are reachable from Resume only through processFile", "Resume reaches a bowl write or pool read through "+core.CalleeName(cl)+", outside the whitelisted branch")
+			processCalls = append(processCalls, in)
+			if process != nil {
+				c.Check(cl.Common().StaticCallee() == process, "R17.1", core.FnName(resume), "effect-reaching call "+core.CalleeName(cl), core.InstrPos(in),
+					"bowl/pool effects are reachable from Resume only through processFile", "Resume reaches a bowl write or pool read through "+core.CalleeName(cl)+", outside the whitelisted branch")
+			}
 		}
 	})
 	c.Floor("R17.1", "effect-reaching calls in Resume", nEff, 1)
-	if processCall == nil || skipCall == nil {
-		c.Bad("R17.1", core.FnName(resume), "skipFile / processFile calls", resume.Pos(), "Resume no longer calls both skipFile and processFile")
+	if len(processCalls) == 0 || skipCall == nil {
+		c.Bad("R17.1", core.FnName(resume), "skipFile / processing calls", resume.Pos(), "Resume no longer calls both skipFile and a function that applies the series")
 		return
 	}
+	processCall := processCalls[0]
 	// mutually exclusive within one file's iteration (the iteration ends where c.FileIndex is advanced)
 	isAdvance := func(x ssa.Instruction) bool {
 		st, ok := x.(*ssa.Store)
@@ -132,7 +138,12 @@ func runC17(c *core.Ctx) {
 		b, n, ok := core.FieldOf(st.Addr)
 		return ok && n == "FileIndex" && core.TypeName(b.Type()) == "pwr/patcher.Checkpoint"
 	}
-	excl := core.FindPath(resume, skipCall, isInstr(processCall), isAdvance) == nil && core.FindPath(resume, processCall, isInstr(skipCall), isAdvance) == nil
+	excl := true
+	for _, pc := range processCalls {
+		if core.FindPath(resume, skipCall, isInstr(pc), isAdvance) != nil || core.FindPath(resume, pc, isInstr(skipCall), isAdvance) != nil {
+			excl = false
+		}
+	}
 	c.Check(excl, "R17.1", core.FnName(resume), "skipFile and processFile are mutually exclusive per file", core.InstrPos(skipCall),
 		"neither call can follow the other before the file index is advanced", "a file can be both skipped and processed in the same iteration")
 	{
@@ -191,7 +202,25 @@ func runC17(c *core.Ctx) {
 				return
 			}
 			if _, n, ok := core.FieldOf(st.Addr); ok && n == "touchedFiles" {
-				if core.InstrDominates(processCall, in) && core.FindPath(resume, skipCall, isInstr(in), isAdvance) == nil {
+				// counted after a processing call of the same iteration returned nil, never after a skip
+				after := false
+				for _, pc := range processCalls {
+					if core.FindPath(resume, pc, isInstr(in), isAdvance) != nil {
+						after = true
+						if pcc, ok := pc.(*ssa.Call); ok && ungatedPath(resume, pcc, in, isAdvance) != nil {
+							after = false
+						}
+					}
+				}
+				fromStart := core.FindPath(resume, nil, isInstr(in), func(x ssa.Instruction) bool {
+					for _, pc := range processCalls {
+						if x == pc {
+							return true
+						}
+					}
+					return false
+				}) != nil
+				if after && !fromStart && core.FindPath(resume, skipCall, isInstr(in), isAdvance) == nil {
 					touched = true
 				} else {
 					c.Bad("R17.1", core.FnName(resume), "touchedFiles updated outside the process outcome", core.InstrPos(in), "touchedFiles is updated on a path that does not process a whitelisted file")
@@ -243,7 +272,7 @@ func runC17(c *core.Ctx) {
 			}
 			// demanded of the ACTIONS, not of the lookup itself (looking a bogus key up in a map is harmless):
 			// from the header read, skipFile / processFile are reachable only through the 'indices agree' outcome
-			for _, act := range []ssa.Instruction{skipCall, processCall} {
+			for _, act := range append([]ssa.Instruction{skipCall}, processCalls...) {
 				p := core.FindPathSkipping(resume, hdrRead, isInstr(act), nil, eqEdge)
 				c.Check(p == nil, "R17.3", core.FnName(resume), "a freshly read header is acted upon only after sh.FileIndex == c.FileIndex was established: "+core.CalleeName(act.(ssa.CallInstruction)), core.InstrPos(act),
 					"from the header read, the call is reachable only through the 'indices agree' outcome", "a file can be skipped or processed on the strength of a header whose file index was not compared with the expected one").Path = c.P.PathStrings(p)
@@ -320,7 +349,19 @@ func runC17(c *core.Ctx) {
 		return out
 	}
 	rSkip := readTypes(skip)
-	rProc := readTypes(process)
+	var procFns []*ssa.Function
+	for _, pc := range processCalls {
+		if sc := pc.(ssa.CallInstruction).Common().StaticCallee(); sc != nil {
+			procFns = append(procFns, sc)
+		}
+	}
+	rProc := readTypes(procFns...)
+	if process == nil && len(procFns) > 0 {
+		process = procFns[0] // for positions in reports
+	}
+	if process == nil {
+		process = resume
+	}
 	var missing []string
 	for n := range rProc {
 		if _, ok := rSkip[n]; !ok {
